@@ -203,7 +203,7 @@ pub fn run(ctx: &Ctx) -> (Level, Report) {
 nesting position is replaced by 2^32-1, 2^32-2, 2^30, 2^24, 2^16, count+1, counts in and around the 16 KiB window (16384 items, window+1.., 1000..16384) or a random u32 (bit sequences also 2^29-1), followed by 0..64 KiB of \
 zero / random / plausible payload, over slice, unknown-length and shared-buffer inputs; plus ordinary mutated inputs. Oracle: a counting \
 global allocator (per-thread) around the decode call alone: peak live bytes and the largest single request must stay below \
-8*c_T*len + 64*len + 64 KiB*(depth_T+1), where c_T is the type's largest in-memory/encoded element size ratio; requests above 2 GiB are refused, \
+8*c_T*len + 64*len + 64 KiB*(depth_T+1), where c_T is the type's largest in-memory/encoded element size ratio; requests above 3 GiB are refused, \
 which kills the worker process (recovered and reported by the parent). Non-trivial = the claimed count promises at least twice the data supplied.",
 			assumptions: vec![
 				"allocation observed through the global allocator on a 64-bit target",
